@@ -261,7 +261,7 @@ U("searchpath", entry="h_searchpath", func="cfg_searchpath (recursion by contrac
 U("tilde_expand", entry="h_tilde_expand", func="cfg_tilde_expand", defs={"quick": ["-DNAMEN=4", "-DCFGV_FIXED_DUP=8"], "thorough": ["-DNAMEN=6", "-DCFGV_FIXED_DUP=10"]}, cbmc={"quick": unw(8) + OOM, "thorough": unw(10) + OOM},
   nondet_static=r".*confuse\.c:.*", label="bounded(name <= 4 bytes quick / 6 thorough over all bytes; home directory 1 byte; statics of confuse.c arbitrary)", props=["C17", "C18", "C08", "C02"], cost=40, trusted=PTRUST, **PTH)
 U("add_searchpath", entry="h_add_searchpath", func="cfg_add_searchpath", defs={"quick": ["-DNAMEN=2", "-DCFGV_FIXED_DUP=8"]}, cbmc=unw(8) + OOM + LEAK,
-  label="bounded(directory <= 2 bytes; allocation may fail)", props=["C17", "C18", "C16", "C07", "C02"], cost=20, trusted=PTRUST, **PTH)
+  label="bounded(directory <= 2 bytes; allocation may fail)", props=["C17", "C18", "C16", "C07", "C02", "C13"], cost=20, trusted=PTRUST, **PTH)
 
 # ------------------------------------------------------------------ printing (C19 C05)
 PRT = dict(harness="harness/print.c", defs={"quick": []})
